@@ -9,16 +9,17 @@
 (* Scenarios are REPLAY lines: the hooked real code must report the same   *)
 (* entry nodes.                                                            *)
 (***************************************************************************)
-EXTENDS LoGraph, TLC, Json
+EXTENDS LoCall, TLC, Json
 
-CONSTANTS NSamp, EmitReplay
+CONSTANTS NSamp, EmitReplay, Ancs
 VARIABLES anc, sites, alleles, revs, phase
 vars == <<anc, sites, alleles, revs, phase>>
 
 K == 5
 \* two 24-base ancestors whose 4-mers are unique on both strands and none self-reverse-complementary
-Ancestors == { <<84,67,84,71,84,67,84,84,67,67,65,67,71,67,84,67,65,84,65,67,84,84,71,67>>,    \* TCTGTCTTCCACGCTCATACTTGC
-               <<84,65,65,67,67,65,67,65,65,84,65,71,67,71,65,65,71,84,67,65,71,65,67,65>> }  \* TAACCACAATAGCGAAGTCAGACA
+AllAncestors == << <<84,67,84,71,84,67,84,84,67,67,65,67,71,67,84,67,65,84,65,67,84,84,71,67>>,    \* TCTGTCTTCCACGCTCATACTTGC
+                   <<84,65,65,67,67,65,67,65,65,84,65,71,67,71,65,65,71,84,67,65,71,65,67,65>> >>  \* TAACCACAATAGCGAAGTCAGACA
+Ancestors == {AllAncestors[i] : i \in Ancs}
 Init == /\ anc \in Ancestors
         /\ \E S \in SUBSET (K..(Len(anc) - 1 - K)) :
               /\ Cardinality(S) \in {1, 2}
@@ -51,16 +52,26 @@ EntriesAreSites == (phase = "done" /\ Pre) => EntryNodes(T) = ExpectedEntries(an
 \*  - no indel group arises from substitutions alone,
 \*  - the set of groups is its own mirror image (strand symmetry);
 \* every scenario, with or without the precondition, is printed for replay into the hooked `ska lo`.
+RecJson(R) == SetToSeq({[ref |-> r.ref, alt |-> r.alt, before |-> r.before, after |-> r.after, gts |-> r.gts] : r \in R})
+\* the true column of a variable site: every sample's allele there
+TrueCols == {alleles[i] : i \in VariableSites(alleles)}
+CompCol8(c) == [s \in 1..Len(c) |-> CASE c[s] = 65 -> 84 [] c[s] = 84 -> 65 [] c[s] = 67 -> 71 [] c[s] = 71 -> 67 [] OTHER -> c[s]]
 Traversal ==
    phase = "done" =>
-      LET B == Built
-          FG == FinalGroupsOf(B)
-          FI == FinalIndelsOf(B, K)
+      LET call == LoCall(T, MaxDepth, <<1, 10>>, 2)
+          FG == call.groups
+          FI == call.indels
+          cols == {call.columns[i] : i \in 1..Len(call.columns)}
       IN /\ (Pre => Assert(ExpectedSiteGroups(anc, sites, alleles, K) \subseteq Plain(FG), "SiteGroupsFound"))
          /\ (Pre => Assert(FI = {}, "NoIndelsFromSnps"))
-         /\ (Pre => Assert(StrandSymmetric(B), "Symmetric"))
+         /\ (Pre => Assert(StrandSymmetric(FG \cup FI), "Symmetric"))
+         \* C17 at design level: under the precondition the called columns are exactly the true columns of the variable
+         \* sites, each once, up to complement (no column twice although every site is seen from both strands)
+         /\ (Pre => Assert(~call.panic /\ Len(call.columns) = Cardinality(VariableSites(alleles))
+                            /\ \A c \in cols : c \in TrueCols \/ CompCol8(c) \in TrueCols, "CalledColumnsAreTheSites"))
          /\ (EmitReplay =>
                PrintT(<<"REPLAY", ToJson([kind |-> "loentries", k |-> K, samples |-> [s \in 1..NSamp |-> Samples[s][1].seq],
                                           entries |-> SetToSeq(EntryNodes(T)), nodes |-> Cardinality(Nodes(T)),
-                                          pre |-> Pre, groups |-> GroupJson(FG), indels |-> GroupJson(FI)])>>))
+                                          pre |-> Pre, groups |-> GroupJson(FG), indels |-> GroupJson(FI),
+                                          columns |-> call.columns, records |-> RecJson(call.records), panic |-> call.panic])>>))
 =============================================================================
